@@ -9,7 +9,7 @@ mkdir -p /tmp/matrix
 for id in $IDS; do
   prop=$(python3 -c "import json;print(json.load(open('seeded/$id/meta.json'))['breaks_property'])")
   s=$(date +%s)
-  tools/try_patch.sh /verif/seeded/$id/patch.diff $prop $TIER > /tmp/matrix/$id.log 2>&1
+  /verif/tools/try_patch.sh /verif/seeded/$id/patch.diff $prop $TIER > /tmp/matrix/$id.log 2>&1
   rc=$(grep -o 'exit=[0-9]*' /tmp/matrix/$id.log | tail -1 | cut -d= -f2)
   e=$(( $(date +%s) - s ))
   nv=$(grep -c '^VIOLATION' /tmp/matrix/$id.log)
